@@ -2265,13 +2265,13 @@ class VM:
 
         def replaceAll(*args):
             pattern = args[0] if args else ""
-            replacement = to_string(args[1]) if len(args) > 1 else "undefined"
 
             if isinstance(pattern, JSRegExp):
                 # replaceAll with regex requires global flag
                 if "g" not in pattern._flags:
                     raise JSTypeError("replaceAll called with a non-global RegExp")
-                return replace(pattern, replacement)
+                # The replacement may be a function: hand it on unconverted
+                return replace(pattern, args[1] if len(args) > 1 else UNDEFINED)
             else:
                 # String replaceAll - replace all occurrences
                 search = to_string(pattern)
